@@ -438,8 +438,8 @@ pub fn run_foreign(run: &mut Run, rng: &mut Rng, nmsgs: usize, lim: &Limits, int
     // one interleaved run in four is CROWDED: 5-16 chunk streams, messages started eagerly and made multi-chunk, so that
     // many messages are partially received at the same time (RTMP sets no limit on that)
     let crowd = interleave && rng.chance(1, 4);
-    let ncs = if many { rng.range(65, 140) as usize } else if crowd { rng.range(5, 16) as usize } else { rng.range(if interleave { 2 } else { 1 }, 4) as usize };
-    let nmsgs = if many { ncs * 2 + 10 } else { nmsgs };
+    let ncs = if many { rng.range(65, 140) as usize } else if crowd { if rng.chance(1, 4) { *rng.pick(&[31usize, 32, 33, 63, 64, 65]) } else { rng.range(5, 16) as usize } } else { rng.range(if interleave { 2 } else { 1 }, 4) as usize };
+    let nmsgs = if many { ncs * 2 + 10 } else if crowd { nmsgs.max(ncs + 4) } else { nmsgs };
     let tiny = Limits { max_len: 6, max_chunks: 2 };
     let lim = if many { &tiny } else { lim };
     let mut csids: Vec<u32> = Vec::new();
